@@ -147,6 +147,15 @@ def clone(tree):
     return [clone(x) if isinstance(x, list) else x for x in tree]
 
 
+def vcase_copy(item):
+    """the same tag / group with every lettered value or extension (no unit, not a Def name) in swapped letter case"""
+    if isinstance(item, list):
+        return [vcase_copy(x) for x in item]
+    if item.node is None or item.node.name in ("Def", "Def-expand") or item.node.unit_classes or not item.rest[1:2].isalpha():
+        return item
+    return Leaf(item.node, item.rest.swapcase())
+
+
 def shuffled(tree, rng):
     out = [shuffled(x, rng) if isinstance(x, list) else x for x in tree]
     rng.shuffle(out)
@@ -486,7 +495,10 @@ def part_rich(w, run, model, vocab, defs):
                 lst.insert(rng.randrange(len(lst) + 1), bad[rng.randrange(len(bad))])
             elif f == 1 and lst:
                 x = lst[rng.randrange(len(lst))]
-                lst.insert(rng.randrange(len(lst) + 1), shuffled(x, rng) if isinstance(x, list) else x)
+                copy = shuffled(x, rng) if isinstance(x, list) else x
+                if rng.random() < 0.5:
+                    copy = vcase_copy(copy)      # lettered values / extensions of the copy in swapped case
+                lst.insert(rng.randrange(len(lst) + 1), copy)
             elif f == 2:
                 lst.insert(rng.randrange(len(lst) + 1), [])          # '()'
                 if rng.random() < 0.4:
